@@ -432,6 +432,8 @@ impl Sender {
     ) -> Option<Vec<u8>> {
         let session_index_orig = sessions.index;
         loop {
+            #[cfg(feature = "verif")]
+            crate::verif::step("Sender::read_priority_queue");
             let session = sessions.sessions.get_mut(sessions.index).unwrap();
             let data = session.run(fdt, now);
 
